@@ -50,11 +50,13 @@ def compute_dmdelays(
         returns a 2D array with shape ``(len(dm), len(freqs))``.
     """
     freqs = np.atleast_1d(freqs).astype(np.float32)
+    scalar_dm = np.ndim(dm) == 0
     dm = np.atleast_1d(dm)[:, np.newaxis].astype(np.float32)
     delays = dm * DM_CONSTANT_LK * ((freqs**-2) - (ref_freq**-2))
     if in_samples:
         delays = (delays / tsamp).round().astype(np.int32)
-    return delays.squeeze()
+    # Only the DM axis of a scalar DM is dropped: one channel stays a 1D array
+    return delays[0] if scalar_dm else delays
 
 
 def compute_dmsmearing(
@@ -86,12 +88,13 @@ def compute_dmsmearing(
         returns a 2D array with shape ``(len(dm), len(freqs))``.
     """
     freqs = np.atleast_1d(freqs).astype(np.float32)
+    scalar_dm = np.ndim(dm) == 0
     dm = np.atleast_1d(dm)[:, np.newaxis].astype(np.float32)
     foff = float(np.abs(freqs[1] - freqs[0]))
     smearing = 2 * DM_CONSTANT_LK * foff * dm / freqs**3
     if in_samples:
         smearing = (smearing / tsamp).round().astype(np.int32)
-    return smearing.squeeze()
+    return smearing[0] if scalar_dm else smearing
 
 
 # dictionary to define the sizes of header elements
